@@ -129,7 +129,7 @@ def run(ctx):
         "generic path returns for all 17 operators (+ - * / % ** > >= < <= == << >> & | ^ &~) and all operand values admitted by "
         "the type checker; Int arithmetic is the C06 model, IEEE arithmetic is abstract (the equalities hold for any float "
         "semantics). NOT proved: that the Go paths equal the model (c08.variants runs 3-4 program variants per case on the real "
-        "binary and requires all outputs equal to each other and to the extracted model); unary operators, != and <=>, sized "
+        "binary and requires all outputs equal to each other and to the extracted model); the compiler's opcode SELECTION is wrong for `==` with a Float on the left (EQUAL_INT, crashes: C08_typed_selection_refuted, known finding eq:F/F:variant-crash:typed; C08_typed_selection_partial excludes exactly that class); unary operators, != and <=>, sized "
         "integer types, BigFloat and arbitrary std methods are not modelled (partial, as in DESIGN).")
     ctx.trusted_base += ["IEEE-754 binary64 arithmetic / math.Mod / Int->Float conversion: Section variables in Coq, instantiated with "
                          "OCaml native doubles in the driver; float ** is compared between variants only",
@@ -210,7 +210,8 @@ def run(ctx):
         distinct.add(c)
         if len(samples) < 3:
             samples.append({"input": inputs[str(i)], "observed": outs})
-        cls = "%s:%s/%s" % (op, kclass(lk, a), kclass(rk, b))
+        # equality dispatches on the operand kinds only: sign and size do not enter the class
+        cls = "eq:%s/%s" % (lk, rk) if op == "eq" else "%s:%s/%s" % (op, kclass(lk, a), kclass(rk, b))
         what = "%s %s %s: " % (lit(lk, a), OPSYM[op], lit(rk, b))
         crashed = [v for v, o in outs.items() if o.startswith("CRASH:")]
         vals = {v: canon(o) for v, o in outs.items() if not o.startswith("CRASH:")}
